@@ -1,7 +1,7 @@
 """
 C06 - tract parsing is compositional: lots, divisions, acreages and aliquots.
 
-All sequences (length 2..3, thorough 4) over 19 element kinds x 5 separators x 6 configurations on
+All sequences (length 2..3, thorough 4) over 21 element kinds x 5 separators x 6 configurations on
 the real Tract parser.  Each element is generated from an abstract spec, so lots / divisions /
 acreages have computed expectations; aliquots use the differential oracle "what the element yields
 on its own under the same configuration" (the tiling itself is C02's subject).
@@ -15,10 +15,10 @@ ID = 'C06'
 LEVEL = 'model_checking'
 TECHNIQUE = ('bounded exhaustive enumeration of element sequences x separators x configurations on the real Tract parser; '
              'spec-derived expectations for lots/divisions/acreages, per-element differential oracle for aliquots')
-LEVEL_TEXT = ('Every sequence of 2-3 (thorough 4) elements from 19 kinds (single lot, range, and-list, () and [] acreage, second acreage '
+LEVEL_TEXT = ('Every sequence of 2-3 (thorough 4) elements from 21 kinds (single lot, range, and-list, () and [] acreage, second acreage '
               'for the same lot, divisions with and without "of", division over a range whose through-word is followed by "Lot", '
-              'division that must stop at the second "Lot" word, three aliquot chains, ALL, repeated lot) x {", ", "; ", ",", ";", line '
-              'break} x 6 configurations. Interference between neighbouring elements (fusion across a separator, lost ALL, acreage '
+              'division that must stop at the second "Lot" word, three aliquot chains, ALL, repeated lot) x 9 separators (comma / semicolon / line break, with and without blanks) '
+              ' x 6 configurations. Interference between neighbouring elements (fusion across a separator, lost ALL, acreage '
               'attributed to the wrong lot, wrong duplicate warning) needs only 2 elements.')
 LEVEL_NOTE = ('Trusted: the element specs in mc/props/c06.py. When one lot carries two different acreages either may be kept. '
               '" and " is not an element separator of this property.')
@@ -46,13 +46,15 @@ ELEMS = [
     ('Lot 1', [(1, None)], {}, False),           # repeated lot (same text as element 0, kept as its own kind)
     ('Lots 20(1.10), 21(2.20)', [(20, None), (21, None)], {20: '1.10', 21: '2.20'}, False),
     ('L22', [(22, None)], {}, False),
+    ('Lot 24(40)', [(24, None)], {24: '40'}, False),
+    ('Lots 25 [38], 26', [(25, None), (26, None)], {25: '38'}, False),
     ('N/2NE/4 of Lot 23', [(23, 'N2NE')], {}, False),
     ('NE/4', [], {}, True),
     ('S/2NW/4', [], {}, True),
     ('W/2SE/4', [], {}, True),
     ('ALL', [], {}, True),
 ]
-SEPS = [', ', '; ', '\n', ',', ';']
+SEPS = [', ', '; ', '\n', ',', ';', ' \n', '\n ', ',\n', ';\r\n']
 CFGS = [None, 'suppress_lot_divs', 'clean_qq', 'qq_depth.1', 'qq_depth_min.3', 'break_halves']
 _p = None
 _alone = {}
